@@ -486,6 +486,78 @@ mut('p13-int-on-any-integer', ['C01'], ['P13'], [('values/value.go',
  '''	if rv := reflect.ValueOf(v.value); isIntKind(rv.Kind()) {
 		return int(rv.Int())
 	}''')], 'reflect Int on a value that may be unsigned')
+mut('e11-flush-after-failure', ['C20'], ['E11'], [('render/render.go',
+ '''	if err := node.render(&tw, newNodeContext(vars, c)); err != nil {
+		return err
+	}
+	if _, err := tw.Flush(); err != nil {
+		return wrapRenderError(err, invalidLoc)
+	}
+	return nil''',
+ '''	err := node.render(&tw, newNodeContext(vars, c))
+	if _, ferr := tw.Flush(); ferr != nil && err == nil {
+		return wrapRenderError(ferr, invalidLoc)
+	}
+	return err''')], 'what was buffered is flushed although a node has failed')
+mut('e11-raw-writes-on', ['C20'], ['E11', 'E8'], [('render/render.go',
+ '''	for _, s := range n.slices {
+		_, err := io.WriteString(w, s)
+		if err != nil {
+			return wrapRenderError(err, invalidLoc)
+		}
+	}
+	return nil''',
+ '''	var first error
+	for _, s := range n.slices {
+		if _, err := io.WriteString(w, s); err != nil && first == nil {
+			first = err
+		}
+	}
+	if first != nil {
+		return wrapRenderError(first, invalidLoc)
+	}
+	return nil''')], 'the remaining raw slices are still written after a failed one')
+mut('x18-empty-needle', ['C09'], ['X18'], [('expressions/builders.go',
+ '''		return values.ValueOf(e1(ctx).Contains(e2(ctx)))''',
+ '''		needle := e2(ctx)
+		if s, ok := needle.Interface().(string); ok && s == "" {
+			return values.ValueOf(true)
+		}
+		return values.ValueOf(e1(ctx).Contains(needle))''')], 'the empty string is contained in everything, arrays and maps included')
+mut('x19-round-float-index', ['C08'], ['X19'], [('values/value.go',
+ '''	case float64:
+		n = int(ix)
+	default:
+		return nilValue
+	}
+	if n < 0 {''',
+ '''	case float64:
+		n = int(ix + 0.5)
+	default:
+		return nilValue
+	}
+	if n < 0 {''')], 'a fractional index is rounded instead of truncated')
+mut('f13-round-to-even', ['C17'], ['F13'], [('filters/standard_filters.go',
+ '''		return math.Floor(n*exp+0.5) / exp''',
+ '''		return math.RoundToEven(n*exp) / exp''')], "banker's rounding")
+mut('f14-fixed-float-text', ['C16'], ['F14'], [('values/convert.go',
+ '''		switch value := value.(type) {
+		case []byte:
+			return string(value), nil''',
+ '''		switch value := value.(type) {
+		case float64:
+			return strconv.FormatFloat(value, 'f', -1, 64), nil
+		case []byte:
+			return string(value), nil''')], 'a float argument of a string filter never uses the exponent form that printing uses')
+mut('x7-nil-struct-pointer', ['C10', 'C09'], ['X7'], [('values/value.go',
+ '''		if rv.IsNil() {
+			return nilValue
+		}
+		if rv.Type().Elem().Kind() == reflect.Struct {''',
+ '''		if rv.IsNil() && rv.Type().Elem().Kind() != reflect.Struct {
+			return nilValue
+		}
+		if rv.Type().Elem().Kind() == reflect.Struct {''')], 'a nil pointer to a struct stays a struct value: truthy')
 out = '/verif/selftest/mutants'
 for d in os.listdir(out):
     if d.startswith('own-'):
